@@ -17,6 +17,7 @@
 EXTENDS Gfx
 
 CONSTANT RV   \* "code" | "cell-height-plus-1" | "bpp-plus-1" | "gate-ignores-palette" | "whole-at-render-size"
+              \* | "second-cell-read" (iTerm2 LINES: strip height from a later get_cell_size() read)
 
 VARIABLES job, k, pos, R, verdict, out
 vars == <<job, k, pos, R, verdict, out>>
@@ -27,7 +28,13 @@ ModeClass(m) == IF m \in Opaque THEN "opaque" ELSE IF m \in {"P", "PA"} THEN "pa
 
 Geo == [rw : 1..2, rh : 1..3, cell : {<<1, 2>>, <<2, 4>>, <<3, 5>>}, orig : {<<1, 1>>, <<3, 5>>, <<9, 20>>}]
 
-Jobs ==
+\* cell2 = what a SECOND get_cell_size() read returns (unstable environment: the cell size
+\* changed after the read that sized the pixel buffer); equal to the first read for most jobs
+Ext(j, c) == [style |-> j.style, method |-> j.method, geo |-> j.geo, mode |-> j.mode, alpha |-> j.alpha,
+              compress |-> j.compress, rff |-> j.rff, readable |-> j.readable, animated |-> j.animated,
+              jpeg |-> j.jpeg, cell2 |-> c]
+
+JobsBase ==
   [style : {"kitty"}, method : {"lines", "whole"}, geo : Geo, mode : Modes,
    alpha : {"none", "float", "bghex"}, compress : {0, 4}, rff : {TRUE}, readable : {TRUE},
    animated : {FALSE}, jpeg : {-1}]
@@ -37,13 +44,19 @@ Jobs ==
    alpha : {"none", "float", "bghex"}, compress : {4}, rff : BOOLEAN, readable : BOOLEAN,
    animated : BOOLEAN, jpeg : {-1, 50}]
 
+Jobs ==
+  {Ext(j, j.geo.cell) : j \in JobsBase}
+  \cup {Ext(j, c) : j \in {x \in JobsBase : x.geo.cell = <<3, 5>> /\ x.geo.orig = <<3, 5>> /\ x.alpha = "float"},
+                    c \in {<<2, 4>>, <<4, 7>>}}
+
 \* header of the judge, derived from the job (what the driver derives from a real case)
 Hdr(j) ==
   [style |-> j.style, method |-> j.method, rw |-> j.geo.rw, rh |-> j.geo.rh,
    cw |-> j.geo.cell[1], ch |-> j.geo.cell[2], ow |-> j.geo.orig[1], oh |-> j.geo.orig[2],
    compress |-> j.compress, z |-> 0, blend |-> TRUE, jpeg |-> j.jpeg, rff |-> j.rff,
    animated |-> j.animated, frame |-> FALSE, readable |-> j.readable,
-   modeclass |-> ModeClass(j.mode), alphakind |-> j.alpha]
+   modeclass |-> ModeClass(j.mode), alphakind |-> j.alpha,
+   unstable |-> j.cell2 # j.geo.cell, cw2 |-> j.cell2[1], ch2 |-> j.cell2[2]]
 
 (* --- the code, transcribed ------------------------------------------------*)
 RSize(j) == <<j.geo.rw * j.geo.cell[1], j.geo.rh * j.geo.cell[2]>>          \* _get_render_size
@@ -56,7 +69,9 @@ OutMode(j) ==
   ELSE IF j.alpha = "float" THEN "RGBA" ELSE "RGB"
 Bpp(j) == IF OutMode(j) = "RGBA" THEN 4 ELSE 3
 
-CellHeight(j) == (Size(j)[2] \div j.geo.rh) + (IF RV = "cell-height-plus-1" THEN 1 ELSE 0)
+CellHeight(j) ==
+  IF RV = "second-cell-read" /\ j.style = "iterm2" THEN j.cell2[2]     \* self._pixels_lines(lines=1)
+  ELSE (Size(j)[2] \div j.geo.rh) + (IF RV = "cell-height-plus-1" THEN 1 ELSE 0)
 BytesPerLine(j) == Size(j)[1] * CellHeight(j) * (Bpp(j) + (IF RV = "bpp-plus-1" THEN 1 ELSE 0))
 RawLen(j) == Size(j)[1] * Size(j)[2] * Bpp(j)
 RowBytes(j) == Size(j)[1] * Bpp(j)
@@ -96,9 +111,12 @@ KittyStrip ==
                                   !.ilen = (IF job.compress > 0 THEN n ELSE -1),
                                   !.rows_lo = pos \div RowBytes(job),
                                   !.rows_hi = (pos + n) \div RowBytes(job),
-                                  !.pix = (IF n > 0 /\ pos % RowBytes(job) = 0 /\ n % RowBytes(job) = 0 THEN 1 ELSE 0)]
+                                  \* the reference is the source resized to s x v*strips: it is the
+                                  \* picture the bytes were read from only if those heights agree
+                                  !.pix = (IF n > 0 /\ pos % RowBytes(job) = 0 /\ n % RowBytes(job) = 0
+                                              /\ rec.v * Strips(job) = Size(job)[2] THEN 1 ELSE 0)]
               v == IF t.verdict # "ok" THEN t.verdict
-                   ELSE KittyDoneClause(Hdr(job), k, rec, t.R.last, e)
+                   ELSE KittyDoneClause(Hdr(job), k, rec, t.R.last, e, (IF k = 0 THEN NoFirst ELSE <<rec.s, rec.v>>))
           IN /\ R' = t.R
              /\ verdict' = Judge(v)
              /\ pos' = pos + n
@@ -120,7 +138,7 @@ ITermFile ==
   /\ \E len \in {1, 3000} :
        LET e == ITermEvent("png", 1, job.geo.orig[1], job.geo.orig[2], job.mode, -1, -1, -1, len,
                            job.geo.rw, job.geo.rh)
-       IN verdict' = Judge(ITermClause(Hdr(job), k, e))
+       IN verdict' = Judge(ITermClause(Hdr(job), k, e, NoFirst))
   /\ k' = Strips(job) /\ out' = "iterm-file"
   /\ UNCHANGED <<job, pos, R>>
 
@@ -130,7 +148,7 @@ ITermResave ==
   /\ NativeAnimCode(job) /\ ~job.readable
   /\ LET e == ITermEvent("gif", 0, job.geo.orig[1], job.geo.orig[2], job.mode, -1, -1, -1, 3000,
                          job.geo.rw, job.geo.rh)
-     IN verdict' = Judge(ITermClause(Hdr(job), k, e))
+     IN verdict' = Judge(ITermClause(Hdr(job), k, e, NoFirst))
   /\ k' = Strips(job) /\ out' = "iterm-resave"
   /\ UNCHANGED <<job, pos, R>>
 
@@ -148,9 +166,10 @@ ITermReenc ==
      IN \E len \in {1, n + 11} :
           LET e == ITermEvent(kind, 0, Size(job)[1], hpx, OutMode(job), pos \div RowBytes(job),
                               (pos + n) \div RowBytes(job),
-                              (IF okbytes /\ pos % RowBytes(job) = 0 THEN 1 ELSE 0), len,
+                              (IF okbytes /\ pos % RowBytes(job) = 0 /\ hpx * Strips(job) = Size(job)[2]
+                                 THEN 1 ELSE 0), len,
                               job.geo.rw, (IF lines THEN 1 ELSE job.geo.rh))
-          IN verdict' = Judge(IF okbytes THEN ITermClause(Hdr(job), k, e)
+          IN verdict' = Judge(IF okbytes THEN ITermClause(Hdr(job), k, e, (IF k = 0 THEN NoFirst ELSE <<Size(job)[1], hpx>>))
                               ELSE "render-raises: frombytes gets the wrong number of bytes")
        /\ pos' = pos + n
   /\ k' = k + 1 /\ out' = "iterm-reenc"
